@@ -308,6 +308,12 @@ fn check_project_in(ctx: &Ctx, p: &Proj, rec: &Rec, root: &Path) -> Verdict {
     if !p.symlinks.is_empty() {
         rec.class("projects_with_symlink");
     }
+    if !p.libs.is_empty() {
+        rec.class("projects_with_library_arguments");
+    }
+    if p.files.iter().any(|f| f.includes.iter().any(|i| !i.contains('/') || i.contains("/../"))) && !p.libs.is_empty() {
+        rec.class("projects_with_bare_or_dotdot_include_and_libraries");
+    }
     if !exp.unresolved_in_named.is_empty() {
         rec.class("projects_with_unresolvable_include_in_named_file");
     }
